@@ -50,11 +50,22 @@ func walkBoxes(data []byte, base int, path string, out *[]rawBox) {
 			return
 		}
 		*out = append(*out, rawBox{typ, base + pos, hl, size, path + "/" + typ})
-		if skip, ok := walkContainers[typ]; ok && size >= hl+skip {
+		if skip, ok := containerSkip(typ, data[pos+hl:pos+size]); ok && size >= hl+skip {
 			walkBoxes(data[pos+hl+skip:pos+size], base+pos+hl+skip, path+"/"+typ, out)
 		}
 		pos += size
 	}
+}
+
+// containerSkip: number of payload bytes before the first child of a container box (ok=false: not a container).
+// A meta box comes in two styles: ISO (a version/flags word, then the children) and QuickTime (children only); the
+// QuickTime style is recognised, as the format defines it, by the hdlr child starting right at the payload.
+func containerSkip(typ string, payload []byte) (int, bool) {
+	skip, ok := walkContainers[typ]
+	if ok && typ == "meta" && len(payload) >= 8 && string(payload[4:8]) == "hdlr" {
+		return 0, true
+	}
+	return skip, ok
 }
 
 type dcField struct {
@@ -288,6 +299,21 @@ func encSlice(b mp4.Box) (r encResult) {
 	return
 }
 
+// encSliceRoomy: EncodeSW into a slice writer that has room to spare (a caller that collects several boxes in one
+// buffer): an encoder that writes more than Size() then reports success instead of an overflow error. The capacity is
+// not derived from Size() when the caller passes one (so that EncodeSW can be the first method that runs on a structure).
+func encSliceRoomy(b mp4.Box, capacity int) (r encResult) {
+	r.panic = safe(func() {
+		if capacity <= 0 {
+			capacity = int(b.Size()) + 64
+		}
+		sw := bits.NewFixedSliceWriter(capacity)
+		r.err = b.EncodeSW(sw)
+		r.out = sw.Bytes()
+	})
+	return
+}
+
 func infoOf(b mp4.Box) string {
 	var buf bytes.Buffer
 	p := safe(func() { _ = b.Info(&buf, "all:1", "", "  ") })
@@ -310,7 +336,7 @@ func checkSizeFields(enc []byte) string {
 	}
 	// children of each container must tile it
 	for _, b := range boxes {
-		skip, ok := walkContainers[b.typ]
+		skip, ok := containerSkip(b.typ, enc[b.start+b.hl:b.start+b.size])
 		if !ok || b.size < b.hl+skip {
 			continue
 		}
@@ -416,6 +442,14 @@ func checkBoxBytes(c *Ctx, which string, bs []byte, origin string) boxVerdict {
 	}
 	if msg := checkSizeFields(eW.out); msg != "" {
 		fail("C02", "size-field", "a header size field does not equal the length of its box: "+msg, hx(eW.out), "")
+	}
+	// the same clauses for EncodeSW, into a buffer with room to spare: success => bytes written == Size()
+	if eR := encSliceRoomy(box, 0); eR.panic == "" && eR.err == nil {
+		if sa := box.Size(); uint64(len(eR.out)) != sa {
+			fail("C02", "size-sw", "EncodeSW reports success but bytes written != Size()", fmt.Sprintf("Size()=%d written=%d", sa, len(eR.out)), "")
+		} else if msg := checkSizeFields(eR.out); msg != "" {
+			fail("C02", "size-field-sw", "a header size field written by EncodeSW does not equal the length of its box: "+msg, hx(eR.out), "")
+		}
 	}
 	// twice, Info in between
 	_ = infoOf(box)
